@@ -235,6 +235,27 @@ func (r DenseInt64Vector) VDIVS(a DenseInt64Vector, s Int64) Vector {
   return r
 }
 /* -------------------------------------------------------------------------- */
+// True if r and b share elements, for instance if both are overlapping slices
+// of the same vector.
+func (r DenseInt64Vector) sharesElementsWith(b ConstVector) bool {
+  if r.Dim() == 0 || b.Dim() == 0 {
+    return false
+  }
+  // the elements of a vector are contiguous, it is sufficient to look
+  // for the first element of one vector in the other one
+  for j := 0; j < b.Dim(); j++ {
+    if r.AT(0) == b.ConstAt(j) {
+      return true
+    }
+  }
+  for i := 1; i < r.Dim(); i++ {
+    if r.AT(i) == b.ConstAt(0) {
+      return true
+    }
+  }
+  return false
+}
+/* -------------------------------------------------------------------------- */
 // Matrix vector product of a and b. The result is stored in r.
 func (r DenseInt64Vector) MdotV(a ConstMatrix, b ConstVector) Vector {
   n, m := a.Dims()
@@ -248,7 +269,7 @@ func (r DenseInt64Vector) MdotV(a ConstMatrix, b ConstVector) Vector {
     }
     return r
   }
-  if r.AT(0) == b.ConstAt(0) {
+  if r.sharesElementsWith(b) {
     panic("result and argument must be different vectors")
   }
   t := 0.0
@@ -273,7 +294,7 @@ func (r DenseInt64Vector) MDOTV(a *DenseInt64Matrix, b DenseInt64Vector) Vector 
     }
     return r
   }
-  if r.AT(0) == b.AT(0) {
+  if r.sharesElementsWith(b) {
     panic("result and argument must be different vectors")
   }
   t := NullInt64()
@@ -300,7 +321,7 @@ func (r DenseInt64Vector) VdotM(a ConstVector, b ConstMatrix) Vector {
     }
     return r
   }
-  if r.AT(0) == a.ConstAt(0) {
+  if r.sharesElementsWith(a) {
     panic("result and argument must be different vectors")
   }
   t := 0.0
@@ -325,7 +346,7 @@ func (r DenseInt64Vector) VDOTM(a DenseInt64Vector, b *DenseInt64Matrix) Vector 
     }
     return r
   }
-  if r.AT(0) == a.ConstAt(0) {
+  if r.sharesElementsWith(a) {
     panic("result and argument must be different vectors")
   }
   t := NullInt64()
